@@ -19,13 +19,83 @@ def complexes(rng, n):
     return out
 
 
+ACTIONS = ["clear", "append", "pop", "pop0", "reverse", "replace", "refill", "refill", "sort-desc", "request"]
+FORMS = ["list", "list", "list", "sublist", "deque", "tuple"]
+
+
+def caller_steps(rng, npop):
+    """what a caller may do with HIS argument containers after a request: re-use them as buffers"""
+    steps = []
+    for _ in range(rng.randrange(1, 5)):
+        a = rng.choice(ACTIONS)
+        param = None
+        if a == "append":
+            param = rng.randrange(npop)
+        elif a == "replace":
+            param = [rng.randrange(4), rng.randrange(npop)]
+        elif a == "refill":
+            param = [rng.randrange(npop) for _ in range(rng.randrange(1, 4))]
+        steps.append([rng.randrange(2), a, param])
+    return steps
+
+
+def caller_snippet(arg):
+    kind, specs, re, pr, rtype, name, k, forms, steps = arg
+    if kind == "m":
+        return f"# harness op c11_caller_args {arg!r} (harness/impl/compare.py)"
+    mk = {"sublist": "Sub", "deque": "collections.deque"}
+    L = ["import collections",
+         "from dsdobjects.base_classes import DomainS, ComplexS, ReactionS",
+         "class Sub(list): pass",
+         "class Rxn(ReactionS): pass" if k else "Rxn = ReactionS",
+         "def dom(n):",
+         "    try: return DomainS(n, 5)",
+         "    except Exception: return DomainS(n)",
+         f"specs = {[[s[0], s[1]] for s in specs]!r}",
+         "X = [ComplexS([dom(x) if x != '+' else '+' for x in sq], list(st), name='X%d' % i) for i, (sq, st) in enumerate(specs)]",
+         f"bufs = [{mk.get(forms[0], 'list')}(X[i] for i in {re!r}), {mk.get(forms[1], 'list')}(X[i] for i in {pr!r})]",
+         "orig = [list(b) for b in bufs]",
+         f"forms = {forms!r}",
+         "passed = lambda j: tuple(bufs[j]) if forms[j] == 'tuple' else bufs[j]",
+         f"request = lambda: Rxn(passed(0), passed(1), {rtype!r}, name={name!r})",
+         "observe = lambda o: (o.name, o.canonical_form, [x.name for x in o.reactants], [x.name for x in o.products], o.arity)",
+         "first = request()",
+         "before = observe(first)",
+         "key = lambda x: x.canonical_form",
+         "assert before[2] == [x.name for x in sorted(orig[0], key=key)] and before[3] == [x.name for x in sorted(orig[1], key=key)] "
+         "and before[4] == (len(orig[0]), len(orig[1])), before",
+         "assert all(len(b) == len(o) and all(x is y for x, y in zip(b, o)) for b, o in zip(bufs, orig)), 'the request changed the argument containers'",
+         "keep = []"]
+    code = {"clear": "b.clear()", "append": "b.append(X[{p}])", "pop": "b.pop()", "pop0": "del b[0]", "reverse": "b.reverse()",
+            "replace": "b[{p0} % len(b)] = X[{p1}]", "refill": "b.clear(); b.extend(X[i] for i in {p})",
+            "sort-desc": "b.sort(key=key, reverse=True)", "request": "keep.append(request())"}
+    for t, a, p_ in steps:
+        two = isinstance(p_, list) and len(p_) > 1
+        stmt = code[a].format(p=p_, p0=p_[0] if two else None, p1=p_[1] if two else None)
+        L += [f"b = bufs[{t}]", f"try: {stmt}", "except Exception: pass",
+              "assert observe(first) == before, (observe(first), before)"]
+    L += [f"assert Rxn(tuple(reversed(orig[0])), tuple(reversed(orig[1])), {rtype!r}, name={name!r}) is first"]
+    return "\n".join(L)
+
+
+CALLER_WHAT = {
+    "members": "right after the request the object lists {0}; the members of the request in canonical order are {1}",
+    "size": "right after the request the size / arity is {0}; the request had {1}",
+    "caller-container-changed": "the request changed the caller's own argument container: it now holds {0}, the caller passed {1}",
+    "changed-after-caller-edit": "after the caller edited HIS argument container ({step}) the existing object changed: it now shows "
+                                 "{0}, it was created as {1}",
+    "original-members-no-longer-this-object": "after the caller edited his argument containers, the members of the first request "
+                                              "(asked again as reversed tuples) no longer denote the first object",
+}
+
+
 def run(ctx):
     rng, quick = ctx.rng, ctx.tier == "quick"
     res = prove(ctx)
     runner = ensure_model_runner()
     diffs, found = [], []
     if runner.ok:
-        reqs = []
+        reqs, creqs, pops = [], [], []
         for _ in range(12 if quick else 150):
             pop = complexes(rng, 6)
             for size in (1, 2, 3, 4):
@@ -59,6 +129,7 @@ def run(ctx):
                 re2, pr2 = list(re1), list(pr1)
                 rng.shuffle(re2); rng.shuffle(pr2)
                 reqs.append(("c11_reaction", ["m", macs, re1, pr1, re2, pr2, "condensed", None, rng.randrange(2)]))
+            pops.append((pop, macs))
         # overlapping member sets while the first macrostate is alive (direct statement, no model request)
         oreqs = []
         for _ in range(60 if quick else 1500):
@@ -74,8 +145,23 @@ def run(ctx):
                 oreqs.append(("c11_macro_overlap", [pop, s1, s3, rng.randrange(2), True]))
             if len(set(s1) & set(s2)) >= 1 and len(s1) >= 2:
                 oreqs.append(("c11_macro_overlap", [pop, s1, s2, rng.randrange(2), "shared"]))
+        # the caller's argument containers (list / list subclass / deque / tuple) and what he does with them after the
+        # request (direct statement, no model request); generated last so that the streams above stay as they were
+        types = ["open", "bind11", "bind21", "branch-3way", "branch-4way"]
+        for pop, macs in pops:
+            for _ in range(8 if quick else 60):
+                re1 = [rng.randrange(6) for _ in range(rng.randrange(1, 4))]
+                pr1 = [rng.randrange(6) for _ in range(rng.randrange(1, 4))]
+                creqs.append(("c11_caller_args", ["c", pop, re1, pr1, rng.choice(types), rng.choice([None, None, "myname"]),
+                                                  rng.randrange(2), [rng.choice(FORMS), rng.choice(FORMS)], caller_steps(rng, 6)]))
+            for _ in range(4 if quick else 30):
+                re1 = [rng.randrange(4) for _ in range(rng.randrange(1, 4))]
+                pr1 = [rng.randrange(4) for _ in range(rng.randrange(1, 4))]
+                creqs.append(("c11_caller_args", ["m", macs, re1, pr1, "condensed", None, rng.randrange(2),
+                                                  [rng.choice(FORMS), rng.choice(FORMS)], caller_steps(rng, 4)]))
         okinds = {}
-        for rq, r in zip(oreqs, run_impl(oreqs)):
+        direct = run_impl(oreqs + creqs)          # one batch: large enough to be spread over several processes
+        for rq, r in zip(oreqs, direct[:len(oreqs)]):
             what = None
             if isinstance(r, Err):
                 what = f"raised {r.kind}"
@@ -101,6 +187,24 @@ def run(ctx):
                 found.append({"key": {"op": rq[0], "arg": rq[1]}, "input": [rq[0], rq[1]], "what": what,
                               "snippet": f"# harness op {rq[0]} {rq[1]!r} (harness/impl/compare.py)"})
         ctx.cov["correspondence"]["overlapping-macrostates(impl)"] = {"cases": len(oreqs), "outcomes": okinds}
+        ckinds = {}
+        for rq, r in zip(creqs, direct[len(oreqs):]):
+            a = rq[1]
+            tag = f"{a[0]}:{'/'.join(a[7])}"
+            ckinds[tag] = ckinds.get(tag, 0) + 1
+            what = None
+            if isinstance(r, Err):
+                what = f"a well-formed first request raised {r.kind}"
+            elif r[2]:
+                # the statement closest to the property text first
+                prio = ["members", "size", "changed-after-caller-edit", "original-members-no-longer-this-object", "caller-container-changed"]
+                n, step, tag_, got, want = min(r[2], key=lambda pb: prio.index(pb[2]))
+                what = CALLER_WHAT[tag_].format(got, want, step=f"step {n}: {step[1]} {step[2] if step[2] is not None else ''}".strip()
+                                                if step else "")
+            if what:
+                found.append({"key": {"op": rq[0], "arg": rq[1]}, "input": [rq[0], rq[1]], "what": what,
+                              "snippet": caller_snippet(rq[1])})
+        ctx.cov["correspondence"]["caller-argument-containers(impl)"] = {"cases": len(creqs), "by_kind_and_forms": ckinds}
         impl = run_impl(reqs)
         mreqs, idx = [], []
         for k, (rq, r) in enumerate(zip(reqs, impl)):
@@ -163,7 +267,9 @@ def run(ctx):
         ctx.add_eval(len(reqs), len(distinct), samples=[{"req": reqs[0], "impl": impl[0]}])
     ctx.cov["rule"] = ("populations of 6 distinct complexes / 4 macrostates; every subset size 1-4 in several permutations "
                        "(first request in one permutation, second in another, named by a member or unnamed), reactions with "
-                       "repeated members and shuffled argument lists, all types; non-trivial = distinct member lists")
+                       "repeated members and shuffled argument lists, all types; first requests made with caller-owned lists, "
+                       "list subclasses, deques and tuples that the caller then clears, refills, extends, reorders or "
+                       "re-uses for further requests; non-trivial = distinct member lists")
     if found and res["ok"] and not diffs:
         for f in found[:10]:
             ctx.violation("counterexample", f)
